@@ -161,7 +161,7 @@ func (g *FnGen) selectFieldIdx(x Val, idx int, st State) Val {
 	if stT, s := derefStruct(x.Go); stT != nil {
 		k, _ := g.D.fieldKey(stT, idx)
 		ft := s.Field(idx).Type()
-		return g.mkVal(sel(g.D.get(st, k), x.T), ft)
+		return g.mkVal(g.hsel(g.D.get(st, k), x.T), ft)
 	}
 	if s, ok := x.Go.Underlying().(*types.Struct); ok {
 		info := g.D.structInfo[g.D.sortOf(x.Go)]
@@ -639,13 +639,39 @@ func (g *FnGen) evalCall(x ECall, ctx *EvalCtx) Val {
 	// aliases of pure external functions: the same uninterpreted function the call sites use
 	if al, ok := g.S.Aliases[x.Fn]; ok {
 		var as, ts []string
-		for _, a := range x.Args {
+		psig := g.pkgFuncSig(al.Func)
+		for i, a := range x.Args {
 			v := g.eval(a, ctx)
 			if v.Lit != nil {
-				v = Val{T: bvLit(v.Lit, 64), S: sortBV64}
+				w := 64
+				if psig != nil && i < psig.Params().Len() {
+					if ps := g.D.sortOf(psig.Params().At(i).Type()); isBV(ps) {
+						w = bvWidth(ps)
+					}
+				}
+				v = Val{T: bvLit(v.Lit, w), S: bvSort(w)}
 			}
 			as = append(as, v.S)
 			ts = append(ts, v.T)
+		}
+		if ct := g.S.Contracts[al.Func]; ct != nil && len(ct.PureReads) > 0 {
+			// memory arguments, in the order of the reads clause; the slice is found by parameter
+			// position among the alias arguments (receiver first)
+			names := g.paramNamesOf(al.Func)
+			for _, pn := range ct.PureReads {
+				for idx, n := range names {
+					if n == pn && idx < len(x.Args) {
+						v := g.eval(x.Args[idx], ctx)
+						if v.S != sortSlice || v.Go == nil {
+							efail("alias %s: argument %d is not a typed slice", x.Fn, idx)
+						}
+						et := v.Go.Underlying().(*types.Slice).Elem()
+						k := g.D.memKeyT(et)
+						as = append(as, fmt.Sprintf("(Array (_ BitVec 64) %s)", g.D.sortOf(et)))
+						ts = append(ts, sel(g.D.get(ctx.st, k), "(s_base "+v.T+")"))
+					}
+				}
+			}
 		}
 		rs, signed, gt := ctypeByName(g.D, g.P, al.ResType)
 		if rs == "" {
@@ -851,4 +877,33 @@ func (g *FnGen) evalBoolNoInst(qf QFact) string {
 	ic := qf.ctx
 	ic.instAt = nil
 	return g.evalBool(qf.e, &ic)
+}
+
+// paramNamesOf lists receiver and parameter names of an in-repo function, receiver first.
+func (g *FnGen) paramNamesOf(fn string) []string {
+	f := g.P.Funcs[fn]
+	if f == nil {
+		return nil
+	}
+	var out []string
+	for _, p := range f.Params {
+		out = append(out, p.Name())
+	}
+	return out
+}
+
+// pkgFuncSig finds the signature of a package-level function "import/path.Name".
+func (g *FnGen) pkgFuncSig(name string) *types.Signature {
+	i := strings.LastIndex(name, ".")
+	if i < 0 || strings.HasPrefix(name, "(") {
+		return nil
+	}
+	for _, sp := range g.P.Prog.AllPackages() {
+		if sp.Pkg.Path() == name[:i] || shortName(sp.Pkg.Path()) == name[:i] {
+			if f := sp.Func(name[i+1:]); f != nil {
+				return f.Signature
+			}
+		}
+	}
+	return nil
 }
